@@ -617,6 +617,7 @@ func runC08(c *Check) {
 			"the loop over the listed push datas can be left early without an error: the entries after that point are not (un)subscribed although the call reports success")
 	}
 	c.ruleSpliceRemovesOne("R9", 1, "spynode")
+	c.ruleRelevantOnlyByMatch("R10")
 
 	// ---- R4 who may write
 	nW := 0
